@@ -1,0 +1,198 @@
+//go:build verif
+
+// Contracts for the template engine (property C17, sequential half), read by /verif/engine (govc).
+// Comments only: with or without the build tag this file adds no code to the package.
+//
+// Model: one goroutine. sync.RWMutex Lock/Unlock/RLock/RUnlock are library calls without effect on the
+// modelled memory (the concurrent half of C17 - data races under all interleavings - is outside this technique).
+//
+// Frames are stated with an ownership bound: a ghost integer B splits the memory into objects/arrays with an
+// allocation id below B (the template, its base document, the data, every other loaded template) and the
+// region at or above B (what the current load/render call allocated). "unchangedBelow(B)" = nothing below B
+// is written. A helper is verified for an arbitrary B; the API functions bind B to their allocation counter
+// at entry, so for them "below B" is exactly "everything that existed when the call started".
+package document
+
+// Package-level error values keep what the package initialiser stored in them (the library never assigns
+// package-level variables: property C07): ErrTemplateNotFound and its cause are non-nil.
+//@ spec tplErrVars() bool = ErrTemplateNotFound != nil && ErrTemplateNotFound.Cause != nil
+
+// ---- template cache ------------------------------------------------------------------------------------
+
+//@ func NewTemplateEngine
+//@ props C17
+//@ modifies nothing
+//@ ensures fresh(result) && result.cache != nil && fresh(result.cache)
+//@ ensures forall k string :: !has(result.cache, k)
+
+// GetTemplate: a pure lookup.
+//@ func (*TemplateEngine).GetTemplate
+//@ props C17
+//@ requires te != nil && tplErrVars()
+//@ modifies nothing
+//@ ensures has(te.cache, name) ==> err == nil && result0 == te.cache[name]
+//@ ensures !has(te.cache, name) ==> err != nil && result0 == nil
+
+// RemoveTemplate / ClearCache touch the cache only: no Template object is written.
+//@ func (*TemplateEngine).RemoveTemplate
+//@ props C17
+//@ requires te != nil
+//@ modifies map:string:*Template
+//@ ensures !has(te.cache, name)
+//@ ensures forall k string :: k != name ==> has(te.cache, k) == old(has(te.cache, k)) && te.cache[k] == old(te.cache[k])
+
+//@ func (*TemplateEngine).ClearCache
+//@ props C17
+//@ requires te != nil
+//@ modifies TemplateEngine.cache
+//@ ensures fresh(te.cache)
+//@ ensures forall k string :: !has(te.cache, k)
+
+// parseTemplate fills the template it is given (variables, blocks, parent link) and nothing else: if the
+// template and its containers lie at or above B, nothing below B is written. In particular it does not write
+// into the parent template it links to (before fix a4b4c34 it stored the child's block contents there).
+//@ func (*TemplateEngine).parseTemplate
+//@ props C17
+//@ ghost B int
+//@ requires te != nil && tplErrVars() && template != nil && above(template, B)
+//@ requires template.Variables != nil && above(template.Variables, B) && template.DefinedBlocks != nil && above(template.DefinedBlocks, B) && above(template.Blocks, B)
+//@ modifies Template.Blocks, Template.Parent, map:string:string, map:string:*TemplateBlock, cell:*TemplateBlock
+//@ ensures result == nil
+//@ ensures unchangedBelow(B)
+//@ loop 1
+//@   invariant 0 <= #i && #i <= len(varMatches) && unchangedBelow(B)
+//@   decreases len(varMatches) - #i
+//@ loop 2
+//@   invariant 0 <= #i && #i <= len(blockMatches) && unchangedBelow(B) && above(template.Blocks, B)
+//@   decreases len(blockMatches) - #i
+//@ loop 3
+//@   invariant 0 <= #i && #i <= len(ifMatches) && unchangedBelow(B) && above(template.Blocks, B)
+//@   decreases len(ifMatches) - #i
+//@ loop 4
+//@   invariant 0 <= #i && #i <= len(eachMatches) && unchangedBelow(B) && above(template.Blocks, B)
+//@   decreases len(eachMatches) - #i
+//@ loop 5
+//@   invariant 0 <= #i && #i <= len(imageMatches) && unchangedBelow(B) && above(template.Blocks, B)
+//@   decreases len(imageMatches) - #i
+
+// LoadTemplate: of the memory that existed before the call only the cache entry for `name` changes; every
+// Template object loaded earlier (its Content, Blocks, DefinedBlocks, Variables, Parent, BaseDoc) is untouched.
+//@ func (*TemplateEngine).LoadTemplate
+//@ props C17
+//@ ghost B int = allocBound()
+//@ requires te != nil && te.cache != nil && tplErrVars()
+//@ modifies map:string:*Template
+//@ ensures err == nil ==> fresh(result0) && has(te.cache, name) && te.cache[name] == result0 && result0.Content == content && result0.BaseDoc == nil
+//@ ensures err != nil ==> unchangedHeap()
+//@ ensures forall k string :: k != name ==> has(te.cache, k) == old(has(te.cache, k)) && te.cache[k] == old(te.cache[k])
+
+// Text extraction from the base document reads only.
+//@ func (*TemplateEngine).extractTextFromHeaderFooterXML
+//@ props C17
+//@ modifies nothing
+//@ loop 1
+//@   invariant 0 <= #i && #i <= len(matches) && unchangedHeap()
+//@   decreases len(matches) - #i
+
+//@ func (*TemplateEngine).extractHeaderFooterContent
+//@ props C17
+//@ requires doc != nil
+//@ modifies nothing
+//@ loop 1
+//@   invariant unchangedHeap()
+
+//@ func (*TemplateEngine).extractTemplateContentFromDocument
+//@ props C17
+//@ requires doc != nil && doc.Body != nil && elemsOK(doc.Body.Elements)
+//@ modifies nothing
+//@ ensures err == nil
+//@ loop 1
+//@   invariant 0 <= #i && #i <= len(doc.Body.Elements) && unchangedHeap()
+//@   decreases len(doc.Body.Elements) - #i
+//@ loop 2
+//@   invariant 0 <= #i && #i <= len(elem.Runs) && unchangedHeap()
+//@   decreases len(elem.Runs) - #i
+
+// LoadTemplateFromDocument: as LoadTemplate; the document becomes the template's base document and is only read.
+//@ func (*TemplateEngine).LoadTemplateFromDocument
+//@ props C17
+//@ ghost B int = allocBound()
+//@ requires te != nil && te.cache != nil && tplErrVars() && doc != nil && doc.Body != nil && elemsOK(doc.Body.Elements)
+//@ modifies map:string:*Template
+//@ ensures err == nil ==> fresh(result0) && has(te.cache, name) && te.cache[name] == result0 && result0.BaseDoc == doc
+//@ ensures err != nil ==> unchangedHeap()
+//@ ensures forall k string :: k != name ==> has(te.cache, k) == old(has(te.cache, k)) && te.cache[k] == old(te.cache[k])
+
+// ---- string rendering (RenderToDocument path) -----------------------------------------------------------
+// Everything here computes strings from the template text and the data and writes nothing that existed
+// before the call: not the template, not its parents, not the data maps/lists. The function literals handed
+// to regexp.ReplaceAllStringFunc are covered through their inferred write sets (havocked at the call); what
+// the regular expressions match is not modelled (property C16), so the rendered text itself is unconstrained.
+
+//@ func (*TemplateEngine).interfaceToString
+//@ props C17
+//@ modifies nothing
+
+//@ func (*TemplateEngine).applyBlockOverrides
+//@ props C17
+//@ modifies nothing
+
+//@ func (*TemplateEngine).renderBlocks
+//@ props C17
+//@ modifies nothing
+
+//@ func (*TemplateEngine).renderVariables
+//@ props C17
+//@ modifies nothing
+
+//@ func (*TemplateEngine).renderConditionals
+//@ props C17
+//@ modifies nothing
+
+//@ func (*TemplateEngine).renderLoopConditionals
+//@ props C17
+//@ modifies nothing
+
+//@ func (*TemplateEngine).renderImages
+//@ props C17
+//@ modifies nothing
+
+// renderLoopsNested recurses on the rest of the text and on the block of a nested list; termination of that
+// recursion is not claimed (partial). The maps it fills (nestedLists) are its own.
+//@ func (*TemplateEngine).renderLoopsNested
+//@ props C17
+//@ partial
+//@ requires te != nil
+//@ modifies nothing
+//@ loop 1
+//@   invariant unchangedHeap() && 0 <= blockStart && blockStart <= pos && pos <= len(content) && blockEnd == -1
+//@ loop 2
+//@   invariant 0 <= #i && #i <= len(listData) && unchangedHeap()
+//@   decreases len(listData) - #i
+//@ loop 3
+//@   invariant unchangedHeap() && nestedLists != nil && fresh(nestedLists)
+//@ loop 4
+//@   invariant unchangedHeap()
+
+//@ func (*TemplateEngine).renderLoops
+//@ props C17
+//@ requires te != nil
+//@ modifies nothing
+
+// renderTemplateWithOverrides walks up the parent chain (finite: a parent is always a template loaded
+// earlier; termination not claimed - partial). The merged override table is a fresh map per level; the
+// DefinedBlocks tables of the template and of its ancestors are only read.
+//@ func (*TemplateEngine).renderTemplateWithOverrides
+//@ props C17
+//@ partial
+//@ requires te != nil && template != nil && data != nil
+//@ modifies nothing
+//@ loop 1
+//@   invariant unchangedHeap() && merged != nil && fresh(merged)
+//@ loop 2
+//@   invariant unchangedHeap() && merged != nil && fresh(merged)
+
+//@ func (*TemplateEngine).renderTemplate
+//@ props C17
+//@ requires te != nil && template != nil && data != nil
+//@ modifies nothing
